@@ -66,7 +66,9 @@ RECURSIVE AddFrom(_, _, _, _)
 AddFrom(a, b, i, c) == IF i > Len(a) THEN <<>>
                        ELSE LET t == a[i] + b[i] + c
                             IN <<t % Base>> \o AddFrom(a, b, i + 1, t \div Base)
-AddC(a, b) == AddFrom(a, b, 1, 0)                     \* wrapping sum, equal lengths
+\* wrapping sum, equal lengths.  (TLC re-evaluates an operator argument at every use inside a
+\* recursive operator: bind the operands once.)
+AddC(a, b) == LET x == TLCEval(a) y == TLCEval(b) IN AddFrom(x, y, 1, 0)
 Compl(a) == TLCEval([i \in 1..Len(a) |-> Base - 1 - a[i]])
 NegC(a) == AddFrom(Compl(a), Zeros(Len(a)), 1, 1)     \* two's-complement negation
 IsNegC(c) == c[Len(c)] >= Half
@@ -381,10 +383,12 @@ VSumFrom(tags, cs, mem, i) == IF i > Len(cs) THEN Zeros(8)
 RECURSIVE ISumAcc(_, _, _, _, _, _), FieldSum(_, _, _), ASumAcc(_, _, _, _, _)
 ISumAcc(mem, p, t, i, n, acc) ==
     IF i >= n THEN acc
-    ELSE ISumAcc(mem, p, t, i + 1, n, TLCEval(AddC(acc, Ext(RdMem(mem, p, i, SizeOf(t)), SignedT(t), 8))))
+    ELSE LET nx == TLCEval(AddC(acc, Ext(RdMem(mem, p, i, SizeOf(t)), SignedT(t), 8)))
+         IN ISumAcc(mem, p, t, i + 1, n, nx)
 FieldSum(ts, c, j) == IF j > Len(ts) THEN Zeros(8) ELSE TLCEval(AddC(Ext(c[j], SignedT(ts[j]), 8), FieldSum(ts, c, j + 1)))
 ASumAcc(s, items, i, n, acc) ==
-    IF i > n THEN acc ELSE ASumAcc(s, items, i + 1, n, TLCEval(AddC(acc, FieldSum(s.fields, items[i], 1))))
+    IF i > n THEN acc
+    ELSE LET nx == TLCEval(AddC(acc, FieldSum(s.fields, items[i], 1))) IN ASumAcc(s, items, i + 1, n, nx)
 
 \* Apply: the C semantics; cs = converted arguments
 Apply(fn, cs, vtags, mem, errno) ==
